@@ -80,7 +80,7 @@ def cases(draw):
         min_size=1, max_size=5))
     mean = draw(st.one_of(st.just(0.0), st.floats(-500.0, 500.0)))
     return {'params': params, 'levels': levels, 'extra': extra,
-            'mean': mean, 'where': where}
+            'mean': mean, 'where': where, 'int_grid': draw(st.booleans())}
 
 
 def _knots(f, params):
@@ -96,6 +96,10 @@ def check(case):
     f = guarded(sy_mod.create_specific_yield_function, copy.deepcopy(params))
     knots = _knots(f, params)
     levels = np.array(case['levels'], dtype=float)
+    if case.get('int_grid') and all(float(v).is_integer()
+                                    for v in case['levels']):
+        # whole-millimetre grids are naturally written as integer arrays
+        levels = np.array([int(v) for v in case['levels']])
     W = np.asarray(guarded(
         rise_mod.compute_rise_curve, f, levels, case['mean']), dtype=float)
     if W.shape != levels.shape:
